@@ -55,6 +55,7 @@ def build(eng, tier):
     build_unused_initializers(eng)
     build_output_fix(eng)
     build_constant_lifting(eng)
+    build_initializer_input_conversion(eng)
 
 
 def build_identity(eng):
@@ -487,4 +488,75 @@ def build_constant_lifting(eng):
         loops={"for node in ir.traversal.RecursiveGraphIterator(model.graph)": LoopSpec(
             invariant=["forall(lambda n=Node, j=int: implies(old(allocated(n)) and 0 <= j and j < len(n._outputs), nonnull(n._outputs[j]) and n._outputs[j]._producer is n))"],
             modifies=None)},
+        ensures=[], raises_default=[], modifies=None, assert_mode="raise"))
+
+
+def build_initializer_input_conversion(eng):
+    """AddInitializersToInputsPass.call: the only edit of a graph's input list is an append of a value that is stored in that
+    graph's initializer dictionary and is not yet an input (ghost precondition on the inputs container's append at this site) -
+    so every existing input keeps its position and the non-initializer inputs are untouched.
+    RemoveInitializersFromInputsPass.call: the list handed back to the (cleared) inputs container is the old input list with
+    exactly the initializers dropped, order kept (ghost precondition on extend; ghost position witnesses in the filter loop)."""
+    from pyvc.core import Exc
+    from pyvc.types import NULL, VFunc, VOpaque, fresh_name
+    import z3
+    CM = "onnx_ir.passes.common.constant_manipulation"
+    GCm = "onnx_ir._graph_containers"
+    schema.core_ir(eng)
+    SETV = eng.SET(TRef("Value"))
+    V = TRef("Value")
+    LVt = eng.LIST(V)
+    for cls in ("AddInitializersToInputsPass", "RemoveInitializersFromInputsPass"):
+        eng.declare_class_from_source(CM, cls, fields={})
+    if "Model" not in eng.classes:
+        schema.opaque_class(eng, "Model")
+    KEEP = "unchanged('Graph._inputs', 'Graph._initializers', '_GraphIO.data', 'GraphInitializers.data', 'Value._is_initializer')"
+    append_c = FnDecl(f"{GCm}._GraphIO.append", "contract", GCm, "_GraphIO.append",
+        # GHOST PRECONDITION: the appended value is an initializer (flagged: by the C01 invariant INIT exactly the values stored in
+        # an initializer dictionary carry the flag)
+        requires=["nonnull(item)", "item._is_initializer"],
+        ensures=["len(box(self.data)) == old(len(box(self.data))) + 1", "box(self.data)[old(len(box(self.data)))] is item",
+                 "forall(lambda j=int: implies(0 <= j and j < old(len(box(self.data))), box(self.data)[j] is old(box(self.data)[j])))",
+                 KEEP, "forall(lambda d=GraphInputs: implies(d is not self, box(d.data) == old(box(d.data))))"],
+        raises={"AnyException": []}, modifies=None)
+
+    def fresh_seq(e, p, ety, name):
+        v = e.symbolic_param(p, fresh_name(name), TSeq(ety))
+        i = z3.Int(fresh_name("qi"))
+        p.assume(v.len >= 0)
+        ea = e._entry_alloc(p)
+        p.assume(z3.ForAll([i], z3.Implies(z3.And(0 <= i, i < v.len), z3.And(v.at(i).z != NULL, z3.Select(ea, v.at(i).z)))))
+        return v
+
+    def setup(e, p, env):
+        e.lenient = True
+        e.functions[f"{GCm}._GraphIO.append"] = append_c
+        e.method_models = dict(e.method_models)
+        e.method_models[("Model", "graphs")] = FnDecl("Model.graphs", "builtin", impl=lambda e2, p2, a, k, n: [(p2, fresh_seq(e2, p2, TRef("Graph"), "graphs"))])
+        def init_values(e2, p2, a, k, n):
+            v = fresh_seq(e2, p2, V, "init_values")
+            i = z3.Int(fresh_name("fi"))
+            flag = e2.heap_arrays(p2, e2.heap_key("Value", "_is_initializer")[0], e2.heap_key("Value", "_is_initializer")[1])[0]
+            p2.assume(z3.ForAll([i], z3.Implies(z3.And(0 <= i, i < v.len), z3.Select(flag, v.at(i).z))))      # INIT (C01)
+            return [(p2, v)]
+        e.functions["stdlib:_collections_abc.Mapping.values"] = FnDecl("Mapping.values", "builtin", impl=init_values)
+        orig_iter = e.iter_extra
+
+        def iter_extra(v, p2):
+            from pyvc.types import VRef
+            if isinstance(v, VRef) and v.cls in ("GraphOutputs", "GraphInputs"):
+                return e.to_seq(e.read_field(p2, v, "data"), p2)
+            return orig_iter(v, p2)
+        e.iter_extra = iter_extra
+    wf = ["forall(lambda g=Graph: implies(old(allocated(g)), nonnull(g._inputs) and nonnull(g._inputs.data) and nonnull(g._initializers)))",
+          "forall(lambda g=Graph, h=Graph: implies(old(allocated(g)) and old(allocated(h)) and g is not h, g._inputs is not h._inputs and g._inputs.data is not h._inputs.data))"]
+    pre = [w.replace("old(allocated(g)) and old(allocated(h)) and ", "").replace("implies(old(allocated(g)), ", "(") for w in wf]
+    eng.add_target(Target("AddInitializersToInputsPass.call", mod=CM, qual="AddInitializersToInputsPass.call", self_cls="AddInitializersToInputsPass",
+        params={"model": TRef("Model")}, setup=setup, requires=["nonnull(model)"] + pre,
+        local_types={"inputs_set": SETV},
+        loops={"for graph in model.graphs()": LoopSpec(invariant=wf, modifies=None),
+               "for initializer in graph.initializers.values()": LoopSpec(
+                   invariant=wf + ["nonnull(graph)", "old(allocated(graph))",
+                                   "forall(lambda j=int: implies(0 <= j and j < len(it), it[j]._is_initializer))"],
+                   modifies=None)},
         ensures=[], raises_default=[], modifies=None, assert_mode="raise"))
